@@ -18,8 +18,8 @@ ASSUME = [
 SEGS_QUICK = [("whole",), ("bytes",), ("crlf",), ("cut", 3), ("cut", 5), ("early",), ("run",), ("rand",)]
 
 MC = {
-    ("C01", "quick"): ["MC_C01_quick"],
-    ("C01", "thorough"): ["MC_C01_quick", "MC_C01_thorough"],
+    ("C01", "quick"): ["MC_C01_quick", "MC_C01_reent"],
+    ("C01", "thorough"): ["MC_C01_quick", "MC_C01_reent", "MC_C01_thorough"],
     ("C02", "quick"): ["MC_C02_quick", "MC_C02_other"],
     ("C02", "thorough"): ["MC_C02_quick", "MC_C02_other", "MC_C02_names", "MC_C02_thorough"],
     ("C03", "quick"): ["MC_C03_quick"],
